@@ -120,3 +120,30 @@ package vgirpc
 //@       (forall k int :: 0 <= k && k < i ==> allocs[k][0] == entOff(s,k) && allocs[k][1] == entLen(s,k))
 //@   at call (*ShmSegment).writeAllocs assert
 //@       forall k int :: i <= k && k < cnt(s) - 1 ==> allocs[k][0] == entOff(s,k+1) && allocs[k][1] == entLen(s,k+1)
+
+// ---- the public operations: the table's well-formedness is the segment's representation
+// invariant, established by initializeHeader (empty table) and kept by every locked helper.
+//
+// FreeOffset is verified end to end: the invariant is assumed at its entry (`boundary`: its
+// callers outside the allocator are listed in the evidence, not asked to prove it), handed to
+// freeAtLocked (its `requires` is an obligation here) and proved again at every exit.
+//
+// AllocateAndWrite and allocateAndWriteSerialized run arrow-go's IPC encoder and a caller-
+// supplied serialize callback between their entry and the locked helpers; neither has a frame
+// contract, so the invariant cannot be carried across them. allocateLocked and canFitLocked
+// are therefore boundaries themselves: their two callers are listed as unchecked. ----
+//
+//@ func (*ShmSegment).FreeOffset
+//@   property C34
+//@   boundary
+//@   requires segOK(s) && wfTable(s)
+//@   ensures [wfbounds] wfBounds(s)
+//@   ensures [wfsorted] wfSorted(s)
+//
+//@ func (*ShmSegment).allocateLocked
+//@   property C34
+//@   boundary
+//
+//@ func (*ShmSegment).canFitLocked
+//@   property C34
+//@   boundary
